@@ -35,3 +35,12 @@ def run(ctx):
     hpackrules.encode_once(r, F)
     r = ctx.rule('C10.R5', 'TABLE', 'Huffman ENCODE_TABLE = RFC 7541 Appendix B (257 rows)')
     tables.huffman_encode_rule(r, F)
+
+
+_run_rules = run
+
+
+def run(ctx):
+    _run_rules(ctx)
+    from .. import boundaries
+    boundaries.check(ctx, 'C10.RB', 'C10')
